@@ -9,7 +9,7 @@ import common
 import trace
 from common import CheckError
 
-LEVEL = "exploration"
+LEVEL = "model_checking"
 SPECDIR = os.path.join(common.SPEC, "shared")
 
 
@@ -59,9 +59,8 @@ def run(rep, tier):
             rep.violation("SharedConst.tla violates %s" % r.invariant_violated, payload=r.out[-4000:])
         else:
             raise CheckError("TLC failed on SharedConst:\n" + r.out[-3000:])
-    r2 = common.tlc("SharedConst", "SharedConst_noclone.cfg", SPECDIR, workers=2, timeout=600)
-    if "NoTwoThreadsWriteSameInstance" not in r2.invariant_violated:
-        raise CheckError("vacuity guard: without per-call clones SharedConst.tla should violate NoTwoThreadsWriteSameInstance")
+    common.negative_control(rep, "SharedConst", "SharedConst_noclone.cfg", SPECDIR,
+                            "without per-call clones two threads write the same instance")
     r3 = common.tlc("MLTune", "MLTune_mc.cfg", os.path.join(common.SPEC, "tuner"), workers=4, timeout=600)
     rep.add_tlc(r3, "MLTune.tla (confluence of the (trial, fold) tasks: ResultIsSequential)")
     if not r3.ok:
